@@ -40,15 +40,16 @@ for fn, params, spec in [
     contract(M + fn, params=params, returns=BOOL, ensures=[f'result == {spec}'], opaque=True, properties=['C01'])
 
 contract(M + 'match_subselectors', params=dict(self=CSSMATCH, el=NODE, selectors=TSeq(SELLIST)), returns=BOOL,
-         requires=['el is not None'] + WF,
+         requires=['el is not None', 'wf_subs(selectors, 0)'] + WF,
          ensures=['result == all_subs(self, self.namespaces, self.iframe_restrict, el, selectors, 0)'],
          loops={1: dict(var='sel', invariant=['(match and all_subs(self, self.namespaces, self.iframe_restrict, el, selectors, _i1)) == '
-                                              'all_subs(self, self.namespaces, self.iframe_restrict, el, selectors, 0)'])},
+                                              'all_subs(self, self.namespaces, self.iframe_restrict, el, selectors, 0)',
+                                              'wf_subs(selectors, _i1)'])},
          properties=['C05', 'C01'])
 
 REL = dict(self=CSSMATCH, el=NODE, relation=SELLIST)
 contract(M + 'match_past_relations', params=REL, returns=BOOL,
-         requires=['el is not None', 'len(relation.selectors) >= 1', 'not sel_is_null(relation.selectors[0])',
+         requires=['el is not None', 'ir_wf_list(relation)', 'len(relation.selectors) >= 1', 'not sel_is_null(relation.selectors[0])',
                    "relation.selectors[0].rel_type == ' ' or relation.selectors[0].rel_type == '>' or "
                    "relation.selectors[0].rel_type == '~' or relation.selectors[0].rel_type == '+'"] + WF,
          ensures=['result == sem_rel(self, self.namespaces, self.iframe_restrict, el, relation)'],
@@ -62,7 +63,68 @@ contract(M + 'match_past_relations', params=REL, returns=BOOL,
                                    'sibling is None or is_tag(sibling)'],
                         decreases='0 if sibling is None else idx(sibling) + 1')},
          properties=['C01'])
+ELEM = ['is_element(child)']
+contract(M + 'match_future_child', params=dict(self=CSSMATCH, parent=NODE, relation=SELLIST, recursive=BOOL), returns=BOOL,
+         requires=['parent is not None', 'ir_wf_list(relation)'] + WF,
+         ensures=['result == seq_any(self, self.namespaces, self.iframe_restrict, '
+                  '(tag_desc(self, parent, self.iframe_restrict) if recursive else tag_children(self, parent, self.iframe_restrict)), relation, 0)'],
+         loops={1: dict(var='child', assume_elem=ELEM,
+                        invariant=['not match',
+                                   'seq_any(self, self.namespaces, self.iframe_restrict, _seq1, relation, _i1) == '
+                                   'seq_any(self, self.namespaces, self.iframe_restrict, _seq1, relation, 0)'])},
+         properties=['C01'])
+contract(M + 'match_future_relations', params=REL, returns=BOOL,
+         requires=['el is not None', 'ir_wf_list(relation)', 'len(relation.selectors) >= 1', 'not sel_is_null(relation.selectors[0])',
+                   "relation.selectors[0].rel_type == ': ' or relation.selectors[0].rel_type == ':>' or "
+                   "relation.selectors[0].rel_type == ':~' or relation.selectors[0].rel_type == ':+'"] + WF,
+         ensures=['result == sem_rel(self, self.namespaces, self.iframe_restrict, el, relation)'],
+         locals=dict(sibling=NODE),
+         loops={1: dict(invariant=['(found or next_sem(self, self.namespaces, self.iframe_restrict, sibling, relation)) == '
+                                   'next_sem(self, self.namespaces, self.iframe_restrict, next_elem(el), relation)',
+                                   'sibling is None or (is_tag(sibling) and parent(sibling) is not None)'],
+                        decreases='0 if sibling is None else len(contents(parent(sibling))) - idx(sibling)')},
+         properties=['C01'])
+RELWF = ["ir_wf_list(relation)", "len(relation.selectors) >= 1",
+         "sel_is_null(relation.selectors[0]) or is_none(relation.selectors[0].rel_type) or rel_ok(relation.selectors[0].rel_type)"]
+contract(M + 'match_relations', params=REL, returns=BOOL, requires=['el is not None'] + RELWF + WF,
+         ensures=['result == sem_rel(self, self.namespaces, self.iframe_restrict, el, relation)'], properties=['C01'])
+
+for fn, params, spec in [
+    ('match_attributes', dict(self=CSSMATCH, el=NODE, attributes=TSeq(SELATTR)), 'sem_attrs(self, self.namespaces, el, attributes)'),
+    ('match_lang', dict(self=CSSMATCH, el=NODE, langs=TSeq(SELLANG)), 'sem_lang(self, el, langs)'),
+    ('match_contains', dict(self=CSSMATCH, el=NODE, contains=TSeq(SELCONTAINS)), 'sem_contains(self, el, contains)'),
+]:
+    contract(M + fn, params=params, returns=BOOL, ensures=[f'result == {spec}'], opaque=True, properties=['C01'])
+
+CTX = 'self, self.namespaces, self.iframe_restrict'
 contract(M + 'match_selectors', params=dict(self=CSSMATCH, el=NODE, selectors=SELLIST), returns=BOOL,
-         requires=['el is not None'] + WF,
-         ensures=['result == sem_list(self, self.namespaces, self.iframe_restrict, el, selectors)'],
-         opaque=True, properties=['C01'])
+         requires=['el is not None', 'ir_wf_list(selectors)'] + WF,
+         ensures=[f'result == sem_list({CTX}, el, selectors)'],
+         locals=dict(namespaces=NSMAP, iframe_restrict=BOOL),
+         loops={1: dict(var='selector',
+                        invariant=['match == (_i1 > 0 and is_not)', 'is_not == selectors.is_not', 'is_html == selectors.is_html',
+                                   'wf_from(selectors, _i1)',
+                                   f'any_from({CTX}, el, selectors, _i1) == any_from({CTX}, el, selectors, 0)'])},
+         unfold=3, properties=['C01', 'C04', 'C05', 'C11'])
+contract(M + 'match', params=dict(self=CSSMATCH, el=NODE), returns=BOOL, requires=['ir_wf_list(self.selectors)'] + WF,
+         ensures=[f'result == matches({CTX}, el)'], properties=['C03'])
+contract(M + 'select', params=dict(self=CSSMATCH, limit=INT), returns=SEQ_NODE, kind='generator',
+         requires=['ir_wf_list(self.selectors)'] + WF,
+         ensures=[f'result == sel_from({CTX}, tag_desc(self, self.tag, False), 0, (None if limit < 1 else limit))'],
+         locals=dict(lim=TOpt(INT)),
+         loops={1: dict(var='child', assume_elem=ELEM,
+                        invariant=[f'yields + sel_from({CTX}, _seq1, _i1, lim) == sel_from({CTX}, _seq1, 0, (None if limit < 1 else limit))',
+                                   'is_none(lim) or lim >= 1'])},
+         properties=['C03'])
+contract(M + 'closest', params=dict(self=CSSMATCH), returns=NODE, requires=['ir_wf_list(self.selectors)'] + WF,
+         ensures=[f'result == closest_from({CTX}, self.tag)'],
+         locals=dict(current=NODE, closest=NODE),
+         loops={1: dict(invariant=[f'ite(closest is not None, closest, closest_from({CTX}, current)) == closest_from({CTX}, self.tag)'],
+                        decreases='0 if current is None else (depth(current) + 2 if closest is None else 1)')},
+         properties=['C03'])
+contract('soupsieve.css_match._DocumentNav.get_contents', params=dict(self=CSSMATCH, el=NODE, no_iframe=BOOL), returns=SEQ_NODE,
+         kind='generator', ensures=['result == own_contents(self, el, no_iframe)'], properties=['C03', 'C19'])
+contract(M + 'filter', params=dict(self=CSSMATCH), returns=SEQ_NODE, requires=['ir_wf_list(self.selectors)'] + WF,
+         ensures=[f'result == filt_from({CTX}, own_contents(self, self.tag, False), 0)'],
+         comps={1: dict(var='tag', fold='filt_from', args=CTX)},
+         properties=['C03'])
